@@ -380,7 +380,7 @@ pub fn latin1_safe(s: &str) -> bool {
 pub fn render(doc: &A, deviations: &[(usize, usize)]) -> Rendered {
     let mut ch = Chooser::new(deviations);
     let entry = ENTRIES[ch.pick(ENTRIES.len(), "entry-point")];
-    let prolog = ch.pick(5, "prolog");
+    let prolog = ch.pick(8, "prolog");
     let mut w = W { out: String::new(), ch: &mut ch, spans: vec![] };
     let enc_decl = match entry {
         Entry::BytesLatin1 => Some("ISO-8859-1"),
@@ -389,17 +389,25 @@ pub fn render(doc: &A, deviations: &[(usize, usize)]) -> Rendered {
     };
     let has_prolog;
     if let Some(enc) = enc_decl {
-        w.out.push_str(&format!("<?xml version=\"1.0\" encoding=\"{}\"?>", enc));
+        // the declaration is needed; its spelling still varies (white space around '=', quote style, line ends)
+        match prolog {
+            2 | 5 => w.out.push_str(&format!("<?xml version = \"1.0\" encoding = \"{}\" ?>", enc)),
+            3 | 6 => w.out.push_str(&format!("<?xml\tversion='1.0'\nencoding\t=\n'{}'?>", enc)),
+            _ => w.out.push_str(&format!("<?xml version=\"1.0\" encoding=\"{}\"?>", enc)),
+        }
         has_prolog = true;
     } else {
         // an encoding declaration that contradicts UTF-16 bytes is not a spelling of the document
         let utf16 = matches!(entry, Entry::BytesUtf16Le | Entry::BytesUtf16Be);
-        let prolog = if utf16 && (prolog == 2 || prolog == 4) { 1 } else { prolog };
+        let prolog = if utf16 && (prolog == 2 || prolog == 4 || prolog == 7) { 1 } else { prolog };
         match prolog {
             1 => w.out.push_str("<?xml version=\"1.0\"?>"),
             2 => w.out.push_str("<?xml version='1.0' encoding='UTF-8'?>"),
             3 => w.out.push_str("<?xml version=\"1.0\" standalone=\"yes\"?>"),
             4 => w.out.push_str("<?xml version=\"1.0\" encoding=\"utf-8\" standalone='no' ?>"),
+            5 => w.out.push_str("<?xml\tversion=\"1.0\"?>"),
+            6 => w.out.push_str("<?xml\nversion = '1.0'\n?>"),
+            7 => w.out.push_str("<?xml version=\"1.0\" encoding = 'UTF-8' standalone = \"yes\"?>"),
             _ => {}
         }
         has_prolog = prolog != 0;
